@@ -6,27 +6,40 @@ result: numbers as Decimal(x).as_tuple() (sign, coefficient, exponent), strings 
 points, types as small codes.  Whether a result is right is decided by coq/Judge/JC16.v."""
 from lib import S, observe_call
 
-GEN = ["ConversionParams", "ConversionBodyParams"]
+GEN = ["ConversionParams", "ConversionBodyParams", "UnicodeParams"]
 RULE = ("digit_string: every v in [0, 10^n) for n <= 3 (quick) / 4 (thorough) as int, float and Decimal; boundary values "
         "(0, 1, 10^(n-1)-1, 10^(n-1), 10^n-1) and random v for n = 1..20 as int, float (the float's own exact value is the input), "
         "Decimal in plain, trailing-zero-fraction and scientific spelling; n = 4300 at the CPython int->str digit limit. "
         "decimal_places: every k/1000 with |k| <= 1100 (quick) / 2500 (thorough) for d = 0..3 (all ties, both parities, both signs); "
         "d = 0..12 with random int, float, str and Decimal arguments, constructed ties, scale-up cases and both sides of the "
-        "28-digit limit; d at the Etiny bound. CONVERSION: every key on six argument types. "
+        "28-digit limit; d at the Etiny bound; negative d down to -999999 with exponents at Emax (results of 1..29 digits on both "
+        "sides of the adjusted-exponent bound), d where the quantum itself overflows, underflows or is refused. "
+        "CONVERSION: every key on six argument types. "
+        "Arguments of any class (streams *_text, *_classes): str arguments of every class of the int / float / Decimal grammars "
+        "(white space ASCII, Unicode and 28-31; signs; single, double, leading, trailing underscores; Unicode decimal digits of "
+        "every script and non-decimal numerics; fraction, exponent, inf / nan / snan spellings; NUL; 4299-4301 digits; exponents "
+        "at the 10^18 bounds of the Decimal constructor; random edits of all of these; EVERY string of length <= 3 (quick) / 4 (thorough) "
+        "over 18 characters chosen for the three grammars), None, bool, nan, inf, huge int, Decimal "
+        "NaN / sNaN / Infinity, Fraction - given to digit_string (with int(arg) observed alone), to decimal_places (with "
+        "Decimal(arg) observed alone) and to every CONVERSION key (type and value of the result). "
         "Branch = which model branch the case took (10-12 digit_string by representation, 20 exact, 21 round down, 22 round up, "
-        "23 tie stays even, 24 tie goes up to even, 25 outside the 28-digit domain, 26 zero, 30+key conversion); "
-        "distinct = distinct case lines.")
+        "23 tie stays even, 24 tie goes up to even, 25 outside the digit domain, 26 zero, 27 quantum refused, 30+key conversion; "
+        "40-48 digit_string by argument class (45 str accepted, 49 str rejected), 50-59 the same for decimal_places, "
+        "60+key conversion returned, 70+key conversion raised); distinct = distinct case lines.")
 TRIVIAL_BRANCHES = [0]
 ASSUMPTIONS = [
-    "the decimal context at call time is the default one (precision 28, ROUND_HALF_EVEN, Emin -999999, Emax 999999, InvalidOperation trapped)",
+    "the decimal context at call time is the default one (precision 28, ROUND_HALF_EVEN, Emin -999999, Emax 999999, InvalidOperation and Overflow trapped)",
     "sys.get_int_max_str_digits() is the CPython default 4300",
     "Decimal(x) for a finite int/float/str/Decimal x is exact and Decimal.as_tuple() reports it (stdlib, used by the runner to serialise arguments and results)",
     "int(float) and int(Decimal) truncate toward zero (modelled; exercised here on integral values only, as the property demands)",
+    "the decimal module is the C one on a 64-bit build (the exact constructor's exponent bounds are those of MPD_MAX_EMAX = 999999999999999999)",
+    "which characters are decimal digits and white space is read from the running CPython (unicodedata.decimal / str.isspace -> coq/Gen/UnicodeParams.v)",
 ]
-TRUSTED = ["harness/t1_c16.py (CONVERSION table -> coq/Gen/ConversionParams.v)"]
+TRUSTED = ["harness/t1_c16.py (CONVERSION table -> coq/Gen/ConversionParams.v; helper bodies -> coq/Gen/ConversionBodyParams.v; "
+           "CPython's character tables -> coq/Gen/UnicodeParams.v)"]
 
 KEYS = {None: 0, "null": 1, "bool": 2, "integer": 3, "number": 4, "string": 5, "decimal": 6}
-TYPES = {"NoneType": 0, "bool": 1, "int": 2, "float": 3, "str": 4, "Decimal": 5}
+TYPES = {"NoneType": 0, "bool": 1, "int": 2, "float": 3, "str": 4, "Decimal": 5, "Fraction": 6}
 CONV_ARGS = ["0", "12", "3.0", "'7'", "Decimal('2')", "True"]
 
 
@@ -128,6 +141,39 @@ def _places_inputs(ctx):
     for d in (1000026, 1000027):
         for text in ("1E-1000020", "0E-1000030", "-25E-1000027", "15E-1000027", "1.5E-1000030"):
             yield "places_etiny", ["dp", d, 3, text]
+    # negative digit counts: the quantum is 1E+|d|.  Small ones round to tens, hundreds ...
+    for d in range(-12, 0):
+        for text in ("0", "5", "15", "25", "-25", "149", "150", "151", "12345", "12500", "13500", "1E+3", "1E+20", "99999E+10",
+                     "9" * 28, "9" * 29, "1E+27", "1E+28", "5E-1", "-0", "4.999E+%d" % (-d - 1), "5.000E+%d" % (-d - 1), "5.001E+%d" % (-d - 1)):
+            yield "places_negative", ["dp", d, 3, text]
+        yield "places_negative", ["dp", d, 0, str(rng.randrange(-10 ** 15, 10 ** 15))]
+        yield "places_negative", ["dp", d, 1, repr(rng.uniform(-1, 1) * 10 ** rng.randint(0, 15))]
+        yield "places_negative", ["dp", d, 2, " %d.5 " % rng.randrange(10 ** 6)]
+        for frac in ("", ".5"):
+            yield "places_negative", ["dp", d, 3, "9" * (28 - d) + frac]
+            yield "places_negative", ["dp", d, 3, "9" * (27 - d) + frac]
+            yield "places_negative", ["dp", d, 3, "1" + "0" * (28 - d) + frac]
+    # ... the large ones meet Emax = 999999: the result must keep exponent + digits - 1 <= 999999
+    for d in (-999999, -999998, -999997, -999990, -999973, -999972, -999971, -999950):
+        e = -d
+        room = 999999 - e + 1                      # digits a result may have
+        for k in sorted({1, 2, 3, room - 1, room, room + 1, 27, 28, 29} - {0, -1}):
+            if k < 1:
+                continue
+            for digits in ("1" + "0" * (k - 1), "9" * k, "5" + "0" * (k - 1), "12345678901234567890123456789"[:k]):
+                for shift in (0, 1, 2, -1, -2):
+                    if shift >= 0:
+                        yield "places_emax", ["dp", d, 3, f"{digits}{'0' * 0}E+{e + shift}"]
+                    else:
+                        yield "places_emax", ["dp", d, 3, f"{digits}{'5' if shift == -1 else '49'}E+{e + shift}"]
+                        yield "places_emax", ["dp", d, 3, f"-{digits}{'4' if shift == -1 else '51'}E+{e + shift}"]
+        for text in (f"0E+{e}", f"-0E+{e + 5}", f"0E+{e - 5}", f"5E+{e - 1}", f"15E+{e - 1}", f"95E+{e - 1}", f"4E+{e - 1}", f"1E+{e + 30}",
+                     f"1E+{e - 3}", f"9995E+{e - 3}", f"15E+{e}", f"10E+{e}", f"9E+{e}"):
+            yield "places_emax", ["dp", d, 3, text]
+    # the quantum Decimal(1).scaleb(-d) itself: Overflow below -999999, InvalidOperation beyond +-2000054, Etiny above 1000026
+    for d in (-1000000, -1000001, -1500000, -2000054, -2000055, -3000000, 2000054, 2000055, 3000000, 1000028, 1500000):
+        for kind, text in ((0, "1"), (0, "0"), (3, "0E-1000026"), (3, "1E-1000026"), (3, "1E+999999"), (3, "0E+999999"), (1, "2.5")):
+            yield "places_quantum", ["dp", d, kind, text]
 
 
 def _conv_inputs(ctx):
@@ -137,13 +183,271 @@ def _conv_inputs(ctx):
             yield "conversion", ["cv", key, a]
 
 
+# ------------------------------------------------------------------ arguments of any class
+# An argument is described as ["none"] | ["bool", 0|1] | ["int", text] | ["float", text] | ["str", text] | ["dec", text] |
+# ["frac", num-text, den-text]; _arg builds the Python value.
+
+CLASS_ARGS = [
+    ["none"], ["bool", 1], ["bool", 0], ["int", "0"], ["int", "12"], ["int", "-3"], ["int", "99999"], ["int", "100000"],
+    ["float", "3.0"], ["float", "12.9"], ["float", "-12.9"], ["float", "-0.0"], ["float", "1e22"], ["float", "5e-324"],
+    ["float", "nan"], ["float", "inf"], ["float", "-inf"], ["float", "1e400"], ["float", "-1e400"], ["float", "1.7976931348623157e308"],
+    ["int", str(10 ** 400)], ["int", str(-10 ** 400)], ["int", str(2 ** 1024 - 2 ** 970)], ["int", str(2 ** 1024 - 2 ** 970 - 1)],
+    ["int", str(-(2 ** 1024 - 2 ** 970))], ["int", str(-(2 ** 1024 - 2 ** 970) + 1)], ["int", str(2 ** 1024)],
+    ["int", "9" * 4300], ["int", "1" + "0" * 4300], ["int", "-" + "9" * 4300], ["int", "-1" + "0" * 4300],
+    ["dec", "2"], ["dec", "12.9"], ["dec", "-12.9"], ["dec", "1E+3"], ["dec", "1020.00"], ["dec", "0E-7"], ["dec", "1E-7"], ["dec", "0.000001"],
+    ["dec", "-0"], ["dec", "0E+5"], ["dec", "1.5E+30"], ["dec", "123456789012345678901234567890.5"], ["dec", "1E+400"], ["dec", "-1E-400"],
+    ["dec", "NaN"], ["dec", "-NaN"], ["dec", "sNaN"], ["dec", "NaN123"], ["dec", "Infinity"], ["dec", "-Infinity"],
+    ["frac", "7", "2"], ["frac", "-7", "2"], ["frac", "0", "1"], ["frac", "3", "1"], ["frac", "1", "3"], ["frac", "99999", "1"],
+    ["frac", str(7 * (2 ** 1024 - 2 ** 970)), "7"], ["frac", str(7 * (2 ** 1024 - 2 ** 970) - 1), "7"], ["frac", str(-7 * (2 ** 1024 - 2 ** 970) + 1), "7"],
+    ["frac", "1" + "0" * 4300, "7"], ["frac", "7", "1" + "0" * 4299 + "1"], ["frac", "9" * 4300, "7"],
+    ["str", "1.5"], ["str", "x"], ["str", ""], ["str", " 7 "], ["str", "nan"], ["str", "7"], ["str", "True"], ["str", "None"],
+]
+
+WS_ASCII = [" ", "\t", "\n", "\x0b", "\x0c", "\r"]
+WS_UNICODE = ["\x85", "\xa0", "\u1680", "\u2000", "\u2003", "\u200a", "\u2028", "\u2029", "\u202f", "\u205f", "\u3000"]
+WS_SEPARATORS = ["\x1c", "\x1d", "\x1e", "\x1f"]          # str.isspace, but not white space for int() and float()
+NOT_WS = ["\u200b", "\ufeff", "\x00", "\x7f", "\x08"]
+NOT_DECIMAL = ["\u00b2", "\u00bd", "\u2168", "\u4e09", "\u2460", "\u0bf0", "\u3007", "\u2080", "\u1369"]   # numeric, not category Nd
+EDIT_ALPHABET = list("0123456789__++--..eEnaifsNIty xX,?/") + ["\t", "\xa0", "\u2003", "\x1c", "\x00", "\u0663", "\uff17", "\u00b2", "\U0001d7d8"]
+
+
+def _digit_zeros():
+    """the zero of every script that has decimal digits (generation only: which characters to try)"""
+    import sys
+    import unicodedata
+    return [c for c in range(sys.maxunicode + 1) if unicodedata.decimal(chr(c), None) == 0]
+
+
+def _spell(rng, digits, zeros, mixed=0.3):
+    """the digit string in the digits of one script, or of a different script per digit"""
+    z = rng.choice(zeros)
+    return "".join(chr((rng.choice(zeros) if rng.random() < mixed else z) + int(ch)) for ch in digits)
+
+
+def _fixed_texts():
+    m = 999999999999999999
+    out = [
+        "", " ", "\t\n", "7", " 7 ", "12", "-5", "+5", "- 5", "+ 5", "+-1", "--1", "++1", "+", "-", "_", "+_1", "-_1", "_1", "1_", "1__0", "1_0",
+        "1_000", "1_2_3", "__1__", "00012", "-0", "+0", "0", "1 2", "1\t2", " + 1", "12.5", "1e3", "1.0", "1.", ".5", ".", "5.", "1e", "e5", "E1",
+        "1E+5", "1e+5", "1e-5", "1e+", "1e-", "1e++5", "1e5.0", "1.5e1.5", "1..5", "1.5.", "1.5e", "+.5", "-.", "-.e1", ".e1", "0e0", "1ee5",
+        "1_0.5", "1_.5", "1._5", "1.5_", "1.5_0", "1e_5", "1_e5", "1e5_0", "1e+_5", "1e1_0", "_.5", "._5", "1_0e1_0", "1__0.5", "1e5_",
+        "nan", "NaN", "nAn", " nan ", "+nan", "-nan", "- nan", "nan1", "nan123", "NaN0009", "nan_", "NaN_1", "na_n", "n_an", "nan.", "nane5", "nann",
+        "snan", "sNaN", "-sNaN", "snan123", "sNa_N", "ssnan", "snann", "inf", "Inf", "iNF", "+inf", "-inf", "inf1", "inf0", "i_nf", "in_f", "infinity",
+        "Infinity", "InFiNiTy", "-Infinity", "infinit", "infinityy", "Inf_inity", "infinity_", " infinity\n", "in f",
+        "0x10", "0b1", "0o7", "1,5", "1'000", "True", "None", "x", "abc", "1x", "x1", "?", "1?", "12L", "1j", "(1)", "1/2", "1 /2",
+        "1\x002", "1\x00", "\x001", "1.5\x00", "\x1c1", "1\x1c", "\x1d1\x1e", "\x1f7", "\x1c", "1\x1c2", "\x857", "7\x85", "\xa01", "1\u2003",
+        "\u30001\u3000", "\u200b1", "1\ufeff", "\x7f1", "1\x7f", "1\xa02", "1\u2003.5",
+        "\u0663", "\u0661\u0662\u0663", "1\u0661", "-\u0661_2", "\u0663.\u0665", "\u0661e\u0662", "1\u066b5", "\uff11\uff12", "\uff11.\uff15",
+        "NaN\u0663", "\u00b2", "1\u00b2", "\u00bd", "\u2168", "\u4e09", "\U0001d7d8\U0001d7d9", "\U0001e950", "\u0966\u0967_\u0968",
+        "1e400", "1e-400", "1e9999999999999999999", "1e-9999999999999999999", "0e9999999999999999999", "9" * 400, "9" * 400 + ".5", "1" + "0" * 400,
+        f"1e{m}", f"1e{m + 1}", f"10e{m}", f"0e{m}", f"0e{m + 1}", f"00e{m}", f"0.0e{m + 1}", f"0.1e{m + 1}", f"0.1e{m + 2}", f"000123e{m - 2}",
+        f"000123e{m - 1}", f"1e-{2 * m - 1}", f"1e-{2 * m}", f"0e-{2 * m - 1}", f"0e-{2 * m}", f"0.0e-{2 * m - 2}", f"0.0e-{2 * m - 1}",
+        f"1.0e-{2 * m - 2}", f"1.0e-{2 * m - 1}", f"-1e{m}", f"-1e{m + 1}", f"1_e_{m}", "1e" + "9" * 40, "1e-" + "9" * 40, "0e-" + "9" * 40,
+        "9" * 4299, "9" * 4300, "9" * 4301, "0" * 4301, "0" * 4300, " " + "1" * 4300 + " ", "-" + "9" * 4300, "-" + "9" * 4301,
+        "1_" * 4299 + "1", "1_" * 4300 + "1", "+" + "0" * 4299 + "5", "\u0663" * 4300, "\u0663" * 4301, "9" * 4301 + ".0", "9" * 4301 + "e0",
+        "1" * 4300 + "_", "_" + "1" * 4300, "1" * 2150 + "__" + "1" * 2150,
+    ]
+    return [x for x in out if x is not None]
+
+
+def _grammar_texts(rng, zeros, count):
+    """strings built from the int grammar (white space, sign, groups of digits joined by underscores) with a fault of a known
+    kind injected into a part of them, and float / Decimal spellings of the same digits"""
+    ws_all = WS_ASCII + WS_UNICODE
+    for _ in range(count):
+        ws1 = "".join(rng.choice(ws_all) for _ in range(rng.choice((0, 0, 1, 2))))
+        ws2 = "".join(rng.choice(ws_all) for _ in range(rng.choice((0, 0, 1, 2))))
+        sign = rng.choice(("", "", "+", "-"))
+        groups = [str(rng.randrange(10 ** rng.randint(1, 6))).zfill(rng.randint(1, 4)) for _ in range(rng.choice((1, 1, 1, 2, 3)))]
+        style = rng.random()
+        if style < 0.35:
+            groups = [_spell(rng, g, zeros, mixed=rng.choice((0.0, 0.0, 0.5))) for g in groups]
+        body = "_".join(groups)
+        shape = rng.randrange(14)
+        if shape <= 3:
+            text = ws1 + sign + body + ws2                                   # a well formed integer
+        elif shape == 4:
+            text = ws1 + sign + rng.choice(ws_all + WS_SEPARATORS) + body + ws2    # white space after the sign
+        elif shape == 5:
+            text = ws1 + sign + rng.choice(("_" + body, body + "_", body.replace("_", "__") if "_" in body else body + "__1")) + ws2
+        elif shape == 6:
+            cut = rng.randrange(len(body) + 1)
+            text = ws1 + sign + body[:cut] + rng.choice(ws_all + WS_SEPARATORS + NOT_WS + NOT_DECIMAL + ["x", ",", "?"]) + body[cut:] + ws2
+        elif shape == 7:
+            text = rng.choice(WS_SEPARATORS + NOT_WS) + sign + body + ws2 if rng.random() < 0.5 else ws1 + sign + body + rng.choice(WS_SEPARATORS + NOT_WS)
+        elif shape == 8:
+            frac = str(rng.randrange(10 ** rng.randint(0, 4))) if rng.random() < 0.8 else ""
+            text = ws1 + sign + rng.choice((body + "." + frac, "." + (frac or "5"), body + ".")) + ws2         # a fraction
+        elif shape == 9:
+            ex = rng.choice(("e", "E")) + rng.choice(("", "+", "-")) + rng.choice((str(rng.randrange(40)), "1_0", "", "_5", "5_"))
+            text = ws1 + sign + body + rng.choice(("", "." + str(rng.randrange(100)))) + ex + ws2                # an exponent
+        elif shape == 10:
+            word = rng.choice(("nan", "inf", "infinity", "snan", "NaN", "Infinity", "sNaN", "INF", "nAN", "infinit", "na", "nan7", "snan07", "inf7"))
+            text = ws1 + sign + word + ws2
+        elif shape == 11:
+            text = ws1 + rng.choice(("+-", "-+", "--", "++", "+ ", "")) + body + ws2
+        elif shape == 12:
+            text = ws1 + sign + _spell(rng, groups[0], zeros, mixed=1.0) + ws2                                   # one script per digit
+        else:
+            text = ws1 + ws2
+        yield text
+
+
+def _edited_texts(rng, pool, count):
+    for _ in range(count):
+        s = list(rng.choice(pool))
+        if len(s) > 60:
+            continue
+        for _ in range(rng.choice((1, 1, 2, 3))):
+            op = rng.randrange(4)
+            i = rng.randrange(len(s) + 1)
+            if op == 0 or not s:
+                s.insert(i, rng.choice(EDIT_ALPHABET))
+            elif op == 1:
+                del s[min(i, len(s) - 1)]
+            elif op == 2:
+                s[min(i, len(s) - 1)] = rng.choice(EDIT_ALPHABET)
+            else:
+                j = min(i, len(s) - 1)
+                s.insert(j, s[j])
+        yield "".join(s)
+
+
+def _is_big(a):
+    return any(isinstance(z, str) and len(z) > 4000 for z in a[1:])
+
+
+def _moderate(text):
+    """generation only: leave out of the decimal_places streams the texts whose exponent is so far from the quantum that the
+    judge would have to write out a power of ten with thousands of digits (they still go to Decimal() through CONVERSION)"""
+    from decimal import Decimal, InvalidOperation
+    try:
+        x = Decimal(text)
+    except (InvalidOperation, ValueError, TypeError):
+        return True
+    return not x.is_finite() or abs(x.as_tuple().exponent) <= 2000
+
+
+def _arg_inputs(ctx):
+    rng = ctx.rng
+    zeros = _digit_zeros()
+    keys = ["null", "bool", "integer", "number", "string", "decimal", None]
+    # every class of argument through the three calls.  Arguments of about 4300 digits cost the judge seconds each (the model
+    # prints and reads them digit by digit): all their cases are collected in [big] and a random part of them is run.
+    big = []
+    small_args = [a for a in CLASS_ARGS if not _is_big(a)]
+    ctx.exhaustive.append(f"CONVERSION: 7 keys x {len(small_args)} arguments of every class")
+    for a in CLASS_ARGS:
+        out = big if _is_big(a) else None
+        for key in keys:
+            case = ("conversion_classes", ["cw", key, a])
+            if out is None:
+                yield case
+            else:
+                out.append(case)
+        for n in (1, 5, 20) + ((4300, 4301) if out is not None else ()):
+            case = ("digits_classes", ["dv", n, a])
+            if out is None:
+                yield case
+            else:
+                out.append(case)
+        for d in (0, 2, -1):
+            case = ("places_classes", ["pv", d, a])
+            if out is None:
+                yield case
+            else:
+                out.append(case)
+    # every decimal digit of every script, alone
+    ctx.exhaustive.append(f"digit_string(3, c) and float(c) or Decimal(c) for each of the {10 * len(zeros)} decimal digit characters c")
+    for z in zeros:
+        for i in range(10):
+            yield "digits_text", ["dv", 3, ["str", chr(z + i)]]
+            yield "conversion_text", ["cw", rng.choice(("number", "decimal")), ["str", chr(z + i)]]
+    # every string up to a length over the characters the three text grammars care about
+    alphabet = ["1", "0", "_", "+", "-", ".", "e", "E", " ", "n", "a", "i", "f", "s", "N", "\x1c", "\u0663", "x"]
+    top = 3 if ctx.tier == "quick" else 4
+    ctx.exhaustive.append(f"int / float / Decimal / digit_string of every string of length <= {top} over {len(alphabet)} characters "
+                          "(digits, underscore, signs, point, e E, blank, separator 28, the letters of nan inf snan, an Arabic-Indic digit, x)")
+    import itertools
+    for n in range(top + 1):
+        for chars in itertools.product(alphabet, repeat=n):
+            text = "".join(chars)
+            yield "text_exhaustive", ["cw", "integer", ["str", text]]
+            yield "text_exhaustive", ["cw", "number", ["str", text]]
+            yield "text_exhaustive", ["cw", "decimal", ["str", text]]
+            if n <= 3:
+                yield "text_exhaustive", ["dv", 3, ["str", text]]
+                yield "text_exhaustive", ["pv", 1, ["str", text]]
+    fixed = _fixed_texts()
+    n_gram, n_edit = (1500, 1500) if ctx.tier == "quick" else (10000, 10000)
+    grammar = list(_grammar_texts(rng, zeros, n_gram))
+    edited = list(_edited_texts(rng, fixed + grammar[:400], n_edit))
+    for text in fixed:
+        cases = []
+        for n in ((5, 4300, 4301) if len(text) > 4000 else (1, 5, 20)):
+            cases.append(("digits_text", ["dv", n, ["str", text]]))
+        for key in ("integer", "number", "decimal", "string", "bool"):
+            cases.append(("conversion_text", ["cw", key, ["str", text]]))
+        if _moderate(text):
+            for d in (2,) if len(text) > 4000 else (0, 2, 12):
+                cases.append(("places_text", ["pv", d, ["str", text]]))
+        if len(text) > 4000:
+            big.extend(cases)
+        else:
+            yield from cases
+    # the limit cases themselves (one side each of 4300 digits for int(str), str(int), digit_string) always run
+    yield "digits_text", ["dv", 5, ["str", "9" * 4301]]
+    yield "conversion_text", ["cw", "integer", ["str", "1" * 4300]]
+    yield "conversion_classes", ["cw", "string", ["int", "1" + "0" * 4300]]
+    yield from rng.sample(big, min(len(big), 6 if ctx.tier == "quick" else 15))
+    for text in grammar + edited:
+        yield "digits_text", ["dv", rng.randint(1, 20), ["str", text]]
+        yield "conversion_text", ["cw", "integer", ["str", text]]
+        yield "conversion_text", ["cw", "number", ["str", text]]
+        yield "conversion_text", ["cw", "decimal", ["str", text]]
+        if _moderate(text):
+            yield "places_text", ["pv", rng.randint(0, 6), ["str", text]]
+    # random arguments of the numeric classes through digit_string and CONVERSION (values, not only types)
+    count = 300 if ctx.tier == "quick" else 6000
+    for _ in range(count):
+        kind = rng.randrange(5)
+        if kind == 0:
+            a = ["int", str(rng.randrange(-10 ** rng.randint(1, 30), 10 ** rng.randint(1, 30)))]
+        elif kind == 1:
+            a = ["float", repr(rng.choice((rng.uniform(-1e6, 1e6), float(rng.randrange(10 ** 9)), rng.uniform(-1, 1) * 10 ** rng.randint(-20, 30))))]
+        elif kind == 2:
+            a = ["dec", _dec_text(rng, rng.randint(0, 20), rng.randint(0, 8)) + rng.choice(("", "", "E+%d" % rng.randint(0, 12), "E-%d" % rng.randint(0, 12)))]
+        elif kind == 3:
+            a = ["frac", str(rng.randrange(-10 ** 12, 10 ** 12)), str(rng.randrange(1, 10 ** rng.randint(1, 6)))]
+        else:
+            a = ["int", str(rng.choice((1, -1)) * (2 ** 1024 - 2 ** 970 + rng.randrange(-3, 3) * rng.choice((1, 2 ** 900))))]
+        yield "digits_classes", ["dv", rng.randint(1, 20), a]
+        yield "conversion_classes", ["cw", rng.choice(keys), a]
+        if kind != 4:
+            yield "places_classes", ["pv", rng.randint(-3, 8), a]
+
+
 def inputs(ctx):
     yield from _conv_inputs(ctx)
+    yield from _arg_inputs(ctx)
     yield from _digit_inputs(ctx)
     yield from _places_inputs(ctx)
 
 
 # ------------------------------------------------------------------ observation
+
+def _wint(v):
+    """an int for the wire: itself, or - when it has more digits than CPython converts between int and str in one go (the wire
+    is written and re-read with str() and int()) - the list [sign, limb, ..., limb] of its base 10^4000 digits, most
+    significant first"""
+    if abs(v) < 10 ** 4000:
+        return int(v)
+    m, base, limbs = abs(v), 10 ** 4000, []
+    while m:
+        m, r = divmod(m, base)
+        limbs.append(r)
+    return [1 if v < 0 else 0] + limbs[::-1]
+
 
 def _triple(x):
     """exact decimal expansion of a finite number: [sign, coefficient, exponent]"""
@@ -154,7 +458,7 @@ def _triple(x):
     c = 0
     for dg in t.digits:
         c = c * 10 + dg
-    return [t.sign, c, t.exponent]
+    return [t.sign, _wint(c), t.exponent]
 
 
 def _value(kind_of, tag, text):
@@ -192,7 +496,89 @@ def observe(ctx, inp):
         arg = eval(CONV_ARGS[a], {"Decimal": Decimal})
         return [3, KEYS[key], TYPES.get(type(arg).__name__, 9),
                 observe_call(lambda: TYPES.get(type(si.CONVERSION[key](arg)).__name__, 9), int)]
+    if what == "dv":
+        _, n, a = inp
+        value = _arg(a)
+        return [4, n, _wire(value), observe_call(lambda: int(value), _wint), observe_call(lambda: S(si.digit_string(n, value)), list)]
+    if what == "pv":
+        _, d, a = inp
+        value = _arg(a)
+        return [5, d, _wire(value), observe_call(lambda: _wire(Decimal(value)), list),
+                observe_call(lambda: _wire(si.decimal_places(d, value)), list)]
+    if what == "cw":
+        _, key, a = inp
+        value = _arg(a)
+        kept = []
+
+        def call():
+            kept.append(si.CONVERSION[key](value))
+            return TYPES.get(type(kept[0]).__name__, 9)
+
+        o = observe_call(call, int)
+        return [6, KEYS[key], _wire(value), o, _wire(kept[0]) if kept else [9]]
     raise ValueError(inp)
+
+
+def _arg(a):
+    """the Python value an argument description denotes"""
+    from decimal import Decimal
+    from fractions import Fraction
+    tag = a[0]
+    if tag == "none":
+        return None
+    if tag == "bool":
+        return bool(a[1])
+    if tag == "int":
+        return _big_int(a[1])
+    if tag == "float":
+        return float(a[1])
+    if tag == "str":
+        return a[1]
+    if tag == "dec":
+        return Decimal(a[1])
+    if tag == "frac":
+        return Fraction(_big_int(a[1]), _big_int(a[2]))
+    raise ValueError(a)
+
+
+def _big_int(text):
+    """int(text) without CPython's limit on the number of digits (arguments of 4301 digits are wanted)"""
+    neg = text.startswith("-")
+    v = 0
+    digits = text.lstrip("+-")
+    for i in range(0, len(digits), 4000):
+        chunk = digits[i:i + 4000]
+        v = v * 10 ** len(chunk) + int(chunk)
+    return -v if neg else v
+
+
+def _wire(v):
+    """a value of one of the described classes as (tag ...); [9] for anything else"""
+    from decimal import Decimal
+    from fractions import Fraction
+    if v is None:
+        return [0]
+    if type(v) is bool:
+        return [1, int(v)]
+    if type(v) is int:
+        return [2, _wint(v)]
+    if type(v) is float:
+        if v != v:
+            return [4, 0]
+        if v in (float("inf"), float("-inf")):
+            return [4, 1 if v > 0 else 2]
+        return [3, _triple(v)]
+    if type(v) is str:
+        return [5, S(v)]
+    if type(v) is Decimal:
+        if v.is_nan():
+            return [7, 1 if v.is_snan() else 0]
+        if v.is_infinite():
+            return [7, 3 if v.is_signed() else 2]
+        return [6, _triple(v)]
+    if type(v) is Fraction:
+        return [8, _wint(v.numerator), _wint(v.denominator)]
+    return [9]
 
 
 def describe(inp):
@@ -202,4 +588,16 @@ def describe(inp):
     if inp[0] == "dp":
         arg = ["{}", "float('{}')", "'{}'", "Decimal('{}')"][inp[2]].format(inp[3])
         return f"decimal_places({inp[1]}, {arg})"
+    if inp[0] in ("dv", "pv", "cw"):
+        a = inp[2]
+        body = a[1] if len(a) > 1 else ""
+        if isinstance(body, str) and len(body) > 60:
+            body = body[:24] + "..." + body[-8:] + f" ({len(body)} characters)"
+        shown = {"none": "None", "bool": str(bool(body)), "int": f"{body}", "float": f"float({body!r})", "str": f"{body!r}",
+                 "dec": f"Decimal({body!r})", "frac": f"Fraction({body}, {a[2] if len(a) > 2 and len(a[2]) < 40 else '...'})"}[a[0]]
+        if inp[0] == "dv":
+            return f"digit_string({inp[1]}, {shown})"
+        if inp[0] == "pv":
+            return f"decimal_places({inp[1]}, {shown})"
+        return f"CONVERSION[{inp[1]!r}]({shown})"
     return f"CONVERSION[{inp[1]!r}]({CONV_ARGS[inp[2]]})"
